@@ -26,6 +26,7 @@ type RunOutcome struct {
 	V       *Violation
 	Stats   *Stats
 	NOps    int
+	Evals   int    // executions behind this outcome (position enumeration engines); 0 means 1
 	Hash    uint64 // hash of the run's store-call sequence and results (determinism self-test)
 	Trouble error  // harness trouble (never a violation)
 }
